@@ -150,7 +150,10 @@ class Context:
         self.atoms = {}      # name -> dict(kind, lo, hi, defn)
         self.assume = []     # boolean nodes (preconditions)
         self.div_obl = []    # (denominator node, pc snapshot)
-        self.fn_impl = {}    # name -> python callable (for numeric evaluation)
+        # name -> python callable (for numeric evaluation); elementary functions built in
+        self.fn_impl = {'log': math.log, 'log10': math.log10, 'exp': math.exp, 'sin': math.sin, 'cos': math.cos,
+                        'tan': math.tan, 'arccos': math.acos, 'arcsin': math.asin, 'arctan': math.atan,
+                        'pow': lambda a, b: a ** b}
         self.seed = seed
         self.sqrt_cache = {}
         self.fresh_n = 0
